@@ -141,7 +141,7 @@ class Engine:
         s.undef_strict = True
         s.on_instr = None
         s.known_filter = None; s.known_hits = {}
-        s.fresh_only = False; s.inc_timeout_ms = 3000; s.alt_solver = None; s.alt_first = False
+        s.fresh_only = False; s.inc_timeout_ms = 3000; s.alt_solver = None; s.alt_first = False; s.model_prefixes = []
         from . import models_rt
         models_rt.install(s)
 
@@ -420,10 +420,27 @@ class Engine:
         if off.__class__ is not int:
             off = s.conc_try(st, off)
             if off.__class__ is int: return s.load_conc(o, to_signed(off, 64), n)
+            # few feasible offsets (an index into an array of structs): select among exactly those
+            try: cands = s.values_of(st, off, cap=16, what=what + ' offset')
+            except Inconclusive: cands = None
+            if cands is not None:
+                vs = []
+                for x, m in cands:
+                    v = s.load_conc(o, to_signed(x, 64), n)
+                    if isinstance(v, (P, FnPtr)): raise NeedConcrete(off, what + ' offset (pointer cells)')
+                    vs.append((x, v))
+                if not vs: raise Inconclusive('infeasible', 'no feasible offset for ' + what)
+                if any(isinstance(v, Undef) for x, v in vs):
+                    if all(isinstance(v, Undef) for x, v in vs): return Undef(8 * n)
+                    raise NeedConcrete(off, what + ' offset (some candidates uninitialised)')
+                res = bv(vs[-1][1], 8 * n)
+                for x, v in vs[:-1]: res = z3.If(off == x, bv(v, 8 * n), res)
+                return simp(res)
             if o.size.__class__ is not int or o.size > 8192: raise NeedConcrete(off, what + ' offset')
             res = None
             for base in range(o.size - n, -1, -1):
-                v = s.load_conc(o, base, n)
+                try: v = s.load_conc(o, base, n)
+                except Bug: continue
                 if isinstance(v, (P, FnPtr)): raise NeedConcrete(off, what + ' offset (pointer cells)')
                 if isinstance(v, Undef): continue
                 v = bv(v, 8 * n)
@@ -1272,6 +1289,9 @@ class Engine:
             if normal is not None: s.jump(st, fr, normal)
             return
         mdl = s.models.get(callee)
+        if mdl is None and s.model_prefixes:
+            for pre, fn in s.model_prefixes:
+                if callee.startswith(pre): mdl = fn; break
         if mdl is not None:
             fr.inv = (normal, unwind) if normal is not None else None
             s._cur_callee = callee
